@@ -15,8 +15,10 @@ The second half of the file (`strSlice`, `examineB`, `scanB`, `getEosB`, `splitF
 transcribed over **byte offsets**, where every `&s[a..b]` can panic; the driver runs that half, and
 `Proofs/SentenceBytes.lean` proves it equal to the character-index half.
 
-The regular expressions are transcribed as direct matchers (see the comment on each; five of them are
-proved equal to the language of the pattern in `Proofs/SentenceRegex.lean`).
+The regular expressions are transcribed as direct matchers (see the comment on each); all seven are proved
+equal to a specification written after the pattern text in `Proofs/SentenceRegex.lean` (five against the
+language of the pattern, SENTENCE_BREAKER with `find_iter` and SPACES with `find` against the leftmost-first
+backtracking semantics `RX.run` of the pattern, which for these two coincides with leftmost-longest).
 `fancy_regex`/`regex` semantics used: leftmost-first (backtracking order) matching, greedy
 quantifiers, `find_iter` = successive non-overlapping matches, look-behind/look-ahead see the whole
 haystack `s` (the current slice cut to `limit` characters), `.` excludes `\n` only, `\s` is the
@@ -542,6 +544,23 @@ def stepValues (v : CkVariant) (limit : Nat) (checker : Option (List (List (List
       | .panic => "PANIC"
       | .ok rv => toString rv)
 
+/-- how many suffixes of the text the answer line reports (`suf=`): the first 40 character boundaries
+(8 for texts longer than 200 characters), the end of the text included when it is among them -/
+def sufCount (text : Text) : Nat := if text.length > 200 then 8 else 40
+
+/-- the value of `get_eos` on `text[b..]` for the first `sufCount` character boundaries `b` — every
+alignment of the 30-byte look-back and of the window against the characters of the text, not only the
+ones the iterator happens to visit -/
+def suffixValues (v : CkVariant) (limit : Nat) (checker : Option (List (List (List Nat)))) (text : Text) :
+    List String :=
+  (List.range (min (text.length + 1) (sufCount text))).map (fun k =>
+    match strSlice text (blen (text.take k)) (blen text) with       -- `&text[b..]`
+    | none => "PANIC"
+    | some rest =>
+      match getEosB v limit checker rest with
+      | .panic => "PANIC"
+      | .ok rv => toString rv)
+
 /-! ## driver entry -/
 
 def showSents (l : List Sent) : String :=
@@ -558,7 +577,7 @@ def parseVariant (toks : List (List Char)) : Option CkVariant :=
   | some w => if w = "cur".toList then some .cur else if w = "fix".toList then some .fix else none
 
 /-- `C16 split idx=<n> limit=<n> ck=<0|1> [ck_variant=cur|fix] lex=<hex,hex;hex,...> text=<code points>`
-→ `ok eos=<isize> ranges=<b:e,...> steps=<isize,...>` computed by the byte-offset functions -/
+→ `ok eos=<isize> ranges=<b:e,...> steps=<isize,...> suf=<isize,...>` computed by the byte-offset functions -/
 def handle (toks : List (List Char)) : String :=
   match Wire.kv? toks "limit", Wire.kv? toks "ck", Wire.kv? toks "lex", Wire.kv? toks "text" with
   | some l, some ck, some lx, some t =>
@@ -572,7 +591,8 @@ def handle (toks : List (List Char)) : String :=
         | .panic => ("PANIC", "-")
         | .fuelOut => ("NONTERMINATION", "-")
         | .ok l => (showSents l, Wire.joinWith "," (stepValues v limit checker text l))
-      "ok eos=" ++ eos ++ " ranges=" ++ sp ++ " steps=" ++ steps
+      "ok eos=" ++ eos ++ " ranges=" ++ sp ++ " steps=" ++ steps ++
+        " suf=" ++ Wire.joinWith "," (suffixValues v limit checker text)
     | _, _, _, _, _ => "bad-op"
   | _, _, _, _ => "bad-op"
 
